@@ -9,6 +9,7 @@ import (
 	"math/rand"
 	"reflect"
 	"strings"
+	"sync"
 	"time"
 
 	kmip "github.com/smira/go-kmip"
@@ -273,10 +274,13 @@ type selChoice struct {
 }
 
 var selCache = map[reflect.Type]map[string]*selChoice{}
+var selMu sync.Mutex
 
 // selectors finds, by calling the real BuildFieldValue, which preceding field selects the type of
 // dynamic field `name` and which of its values dispatch successfully
 func selectors(t reflect.Type, name string) *selChoice {
+	selMu.Lock()
+	defer selMu.Unlock()
 	if m, ok := selCache[t]; ok {
 		if c, ok := m[name]; ok {
 			return c
